@@ -574,12 +574,14 @@ Section Locate.
   Variable Or : oracle.
   Variable ct : ctable.
   Variable rec : ty -> pv -> result pv.
-  Variable lrec : cid -> pv -> option attribution.   (* attribution decided inside a nested instance *)
+  (* attribution decided inside a helper-compiled position (nested instance, NamedTuple), smaller budget *)
+  Variable hrec : ty -> pv -> option attribution.
 
-  (* Some a: the first offending value lies inside a nested dataclass document, a is its
-     attribution; None: it does not (the enclosing class and field are named) *)
+  (* Some a: the first offending value lies inside a nested dataclass document (or is a NamedTuple
+     of the wrong arity), a is its attribution; None: it does not (the enclosing class and field are named) *)
   Fixpoint locate_ty (t : ty) (v : pv) {struct t} : option attribution :=
     match t with
+    | TLeaf _ => None
     | TSeq _ t' =>
         match py_iter v with
         | Ok l => match find (fun x => is_err (load_r Or rec t' false (Ok x))) l with
@@ -601,8 +603,7 @@ Section Locate.
         | Err _ => None
         end
     | TOpt t' => if is_none v then None else locate_ty t' v
-    | TData c => lrec c v
-    | _ => None            (* leaves; Union / Literal / TypedDict / NamedTuple are opaque *)
+    | TUnion _ | TLit _ | TNamed _ _ | TTyped _ _ _ | TData _ => hrec t v
     end
   with locate_elems (ts : tys) (k : nat) (v : pv) {struct ts} : option attribution :=
     match ts with
@@ -612,6 +613,27 @@ Section Locate.
         if is_err (load_r Or rec t false rv)
         then match rv with Ok x => locate_ty t x | Err _ => None end
         else locate_elems r (Datatypes.S k) v
+    end.
+
+  (* the fields of a NamedTuple: the helper re-raises what a field raises, except that an
+     IndexError becomes a MissingFields naming the NamedTuple, and a KeyError on a dict input a
+     plain TypeError *)
+  Fixpoint locate_named (n : pstr) (ts : tys) (k : nat) (v : pv) {struct ts} : option attribution :=
+    match ts with
+    | TNil => None
+    | TCons _ t r =>
+        let rv := py_index v (IxN k) in
+        match load_r Or rec t false rv with
+        | Ok _ => locate_named n r (Datatypes.S k) v
+        | Err e =>
+            let inner := match rv with Ok x => locate_ty t x | Err _ => None end in
+            match e with
+            | XBare s => if pstr_eqb s (S "IndexError") then Some (n, None)
+                         else if pstr_eqb s (S "KeyError") && is_dict v then None
+                         else inner
+            | _ => inner
+            end
+        end
     end.
 
   Fixpoint locate_fields (cn : pstr) (kvs : list (pv * pv)) (fs : list fdecl) (missing : bool)
@@ -630,22 +652,32 @@ Section Locate.
             else locate_fields cn kvs r missing
         end
     end.
+
+  (* inside a helper-compiled position *)
+  Definition locate_helper (t : ty) (v : pv) : option attribution :=
+    match t with
+    | TData c =>
+        match v, nth_error ct c with
+        | VDict _ kvs, Some cd => locate_fields (c_name cd) kvs (c_fields cd) false
+        | _, _ => None
+        end
+    | TNamed n fs => locate_named n fs 0 v
+    | _ => None            (* Union / Literal / TypedDict raise a fresh, unattributed ParseError *)
+    end.
 End Locate.
 
-Fixpoint locate_n (Or : oracle) (ct : ctable) (n : nat) (c : cid) (o : pv) : option attribution :=
+Fixpoint locate_hn (Or : oracle) (ct : ctable) (n : nat) (t : ty) (v : pv) : option attribution :=
   match n with
   | 0%nat => None
-  | Datatypes.S m =>
-      match o, nth_error ct c with
-      | VDict _ kvs, Some cd =>
-          locate_fields Or (load_n Or ct m) (locate_n Or ct m) (c_name cd) kvs (c_fields cd) false
-      | _, _ => None
-      end
+  | Datatypes.S m => locate_helper Or ct (load_n Or ct m) (locate_hn Or ct m) t v
   end.
+Definition locate_n (Or : oracle) (ct : ctable) (n : nat) (c : cid) (o : pv) : option attribution :=
+  locate_hn Or ct n (TData c) o.
 
 (* region of F24: every value at a dataclass-typed position is None or a dict *)
 Section Shape.
-  Variable srec : cid -> pv -> bool.
+  Variable ct : ctable.
+  Variable srec : ty -> pv -> bool.       (* shape inside a helper-compiled position *)
   Fixpoint dc_shape (t : ty) (v : pv) {struct t} : bool :=
     match t with
     | TSeq _ t' => match py_iter v with Ok l => forallb (dc_shape t') l | Err _ => true end
@@ -656,7 +688,8 @@ Section Shape.
         | Err _ => true
         end
     | TOpt t' => dc_shape t' v
-    | TData c => is_none v || (is_dict v && srec c v)
+    | TData c => is_none v || (is_dict v && srec t v)
+    | TNamed _ _ => srec t v
     | _ => true
     end
   with dc_shape_l (ts : tys) (k : nat) (v : pv) {struct ts} : bool :=
@@ -666,28 +699,36 @@ Section Shape.
         (match py_index v (IxN k) with Ok x => dc_shape t x | Err _ => true end) &&
         dc_shape_l r (Datatypes.S k) v
     end.
+
+  Definition shape_helper (t : ty) (v : pv) : bool :=
+    match t with
+    | TData c =>
+        match v, nth_error ct c with
+        | VDict _ kvs, Some cd =>
+            forallb (fun f => match first_key kvs (f_keys f) with
+                              | Some x => dc_shape (f_ty f) x
+                              | None => true
+                              end) (c_fields cd)
+        | _, _ => true
+        end
+    | TNamed _ fs => dc_shape_l fs 0 v
+    | _ => true
+    end.
 End Shape.
 
-Fixpoint dc_shape_n (ct : ctable) (n : nat) (c : cid) (o : pv) : bool :=
+Fixpoint dc_shape_hn (ct : ctable) (n : nat) (t : ty) (v : pv) : bool :=
   match n with
   | 0%nat => true
-  | Datatypes.S m =>
-      match o, nth_error ct c with
-      | VDict _ kvs, Some cd =>
-          forallb (fun f => match first_key kvs (f_keys f) with
-                            | Some v => dc_shape (dc_shape_n ct m) (f_ty f) v
-                            | None => true
-                            end) (c_fields cd)
-      | _, _ => true
-      end
+  | Datatypes.S m => shape_helper ct (dc_shape_hn ct m) t v
   end.
+Definition dc_shape_n (ct : ctable) (n : nat) (c : cid) (o : pv) : bool := dc_shape_hn ct n (TData c) o.
 
-(* annotations covered by the C14 attribution theorem: NamedTuple is outside
-   (its MissingFields names the NamedTuple class) *)
+(* annotations covered by the C14 attribution theorem: everything; Union / Literal / TypedDict
+   are opaque units (what is below them is not inspected) *)
 Fixpoint c14_ty (t : ty) : bool :=
   match t with
   | TLeaf _ | TLit _ | TUnion _ | TTyped _ _ _ | TData _ => true
-  | TNamed _ _ => false
+  | TNamed _ fs => c14_tys fs
   | TSeq _ t' | TOpt t' => c14_ty t'
   | TDict _ k v => c14_ty k && c14_ty v
   | TTuple ts => c14_tys ts
